@@ -36,7 +36,10 @@ RULE_ADDED = (
               '(UserOptionParser command line, PIN environment variable); histories with a running '
               'manager (link fault, device back locked); SGX link faults in the shapes the dongle '
               'layer classifies; an entropy source that biases every drawing primitive towards '
-              'digits ')
+              'digits '
+              ' '
+              'Round 8: histories whose repairing request comes from a client that has hung up '
+              'by the time the reply is written. ')
 RULE = RULE + " " + RULE_ADDED.strip()
 ASSUMPTIONS = [
     "simulated device keeps its PIN in a state file written before it acknowledges (its NVM)",
@@ -759,7 +762,7 @@ def run_shard(spec, acc):
     env.setup()
     adversarial_entropy(acc, 50 if spec["tier"] == "quick" else 2000,
                         spec["seed"] * 31 + spec["shard"])
-    tmpdir = tempfile.mkdtemp(prefix="pv-c10-")
+    tmpdir = env.mkdtemp("c10", spec.get("shard", spec.get("seed", 0)) % 2 == 1)
     try:
         for case in gen_histories(spec, tmpdir):
             run_history(acc, case, tmpdir)
@@ -774,7 +777,7 @@ def replay(case, acc):
         return pin_draws(acc, 200000)
     if case.get("kind") == "entropy":
         return adversarial_entropy(acc, 2000, case["seed"])
-    tmpdir = tempfile.mkdtemp(prefix="pv-c10-")
+    tmpdir = env.mkdtemp("c10")
     try:
         run_history(acc, case, tmpdir)
     finally:
